@@ -11,7 +11,7 @@ from __future__ import annotations
 
 import ast
 
-from ..astutil import assigned_targets, body_walk, call_name, call_recv, calls_in, fstring_parts, kwarg, names_in, norm, strip_await, walk_no_nested
+from ..astutil import polarity_atoms, assigned_targets, body_walk, call_name, call_recv, calls_in, fstring_parts, kwarg, names_in, norm, strip_await, walk_no_nested
 from ..shape import Shapes, YES
 from .. import flow
 from .common import in_admission, parmap, typer, where
@@ -327,10 +327,14 @@ def r20_8(ctx):
     for m in readers:
         ctx.analysed(m)
         okv = False
-        for iff in [x for x in body_walk(m.node) if isinstance(x, ast.If)]:
-            t = norm(iff.test, 300)
-            if "self.uids[" in t and "!=" in t and any(isinstance(s_, (ast.Assign, ast.Try, ast.Raise)) for s_ in iff.body):
-                okv = True
+        from .common import pm_of as _pm
+        exact = _pm(p, m).has("if idx >= len(self.uids) or self.uids[idx] != uid:\n    ...")
+        for iff in [x for x in body_walk(m.node) if isinstance(x, ast.If)] if exact else []:
+            for a_, pos_ in polarity_atoms(iff.test):
+                if isinstance(a_, ast.Compare) and "self.uids[" in norm(a_) and len(a_.ops) == 1:
+                    mismatch_arm = (isinstance(a_.ops[0], ast.NotEq) and pos_) or (isinstance(a_.ops[0], ast.Eq) and not pos_)
+                    if mismatch_arm and any(isinstance(s_, (ast.Assign, ast.Try, ast.Raise)) for s_ in iff.body):
+                        okv = True
         if okv:
             ctx.ok("R20.8", where(m), "index hit validated against uids before it is used (expunge has a stale-index window)")
         else:
